@@ -7,10 +7,28 @@
                      C11-prefix-collision, C11-duplicate-argument; theorem C11_roundtrip_partial)
       RegFresh       after fixes/C11-function-name-collisions.diff: [_register_fn] / [_parameter_names]
                      (theorem C11_roundtrip, no guard)
-    tools/c11_switch.py rewrites this line and known_findings.d/C11.json consistently. *)
+    tools/c11_switch.py rewrites this line and known_findings.d/C11.json consistently.
+
+    The three naming facts are expected at their shipped values: [PnAllArgs] (a fresh parameter name is
+    checked against every model name of the argument list), [IcPositional] (definitions share a name iff
+    their positional forms are equal), [RnDelegated] (fn_to_sympy puts the model names in, simultaneously).
+    The other values are the shapes of the seeded changes C11-1..3; PropsC11.v keeps a regression theorem
+    for each. *)
 From MxlGen Require Import SymRepr.
 
 Definition C11_expected_register : register_mode := RegFresh.
 
+(** [C11_expected_emit]
+      EmSympy15   the tree as it is: plain numbers are written with 15 significant digits, units as bare
+                  names, no `import math` (recorded findings C11-emit-number-literals, C11-emit-math-import,
+                  C11-emit-units)
+      EmExact     after fixes/C11-emitted-numbers-imports-units.diff
+    tools/c11_emit_switch.py rewrites this line and known_findings.d/C11.json consistently. *)
+Definition C11_expected_emit : emit_mode := EmSympy15.
+
 Definition C11_facts (r : register_mode) : gen_facts :=
-  mkGenFacts KsInit KsInit KsPlain KsPlain KsRxnStoich r true true.
+  mkGenFacts KsInit KsInit KsPlain KsPlain KsRxnStoich r true true
+             (match r with RegFresh => PnAllArgs | _ => PnUnknown end)      (* the snapshot has no _parameter_names *)
+             (match r with RegFresh => IcPositional | _ => IcUnknown end)   (* ... and no _register_fn *)
+             RnDelegated
+             C11_expected_emit.
